@@ -446,4 +446,48 @@ theorem DHTFindNode_good (params : kademlia.DHTFindNodeParamsT)
     exact DHTFindNode_good_some { params with Validate := some (fun _ => pure true) } (fun _ => pure true) rfl hAsk
       (fun _ => ⟨true, rfl⟩) res err h
 
+/-! ### DHTJoin -/
+
+/-- `AddPeer` says "added" for node `n` -/
+def joinAdds (params : kademlia.DHTJoinParamsT) (n : kademlia.NodeInfoT) : Bool :=
+  match params.AddPeer n.ID n.Info with
+  | .ok b => b
+  | _ => false
+
+/-- ⊢ what the regenerated `DHTJoin` returns: the number of contacted nodes — pairwise different ids — for which
+    `AddPeer` answered true -/
+theorem DHTJoin_good (params : kademlia.DHTJoinParamsT)
+    (hAsk : ∀ n r, ∃ a, params.Ask n r = .ok a) (hAdd : ∀ i f, ∃ b, params.AddPeer i f = .ok b)
+    (added : Int) (h : kademlia.DHTJoin params = .ok added) :
+    ∃ contacted : List kademlia.NodeInfoT, (contacted.map (·.ID)).Nodup ∧
+      added = ((contacted.filter (joinAdds params)).length : Int) := by
+  unfold kademlia.DHTJoin at h
+  obtain ⟨st, hit, hrest⟩ := bind_ok_inv h
+  obtain ⟨fn, hfn, hit⟩ := exists_fn hit
+  have hspec : ∀ (s : Int) (x : kademlia.NodeInfoT), ∃ r, fn s x = Except.ok r ∧
+      r.1 = s + (if joinAdds params x then 1 else 0) := by
+    intro s x
+    rw [hfn]
+    obtain ⟨b, hb⟩ := hAdd x.ID x.Info
+    obtain ⟨⟨resp, e⟩, ha⟩ := hAsk x { Target := params.Target, Limit := 10 }
+    have hj : joinAdds params x = b := by unfold joinAdds; rw [hb]
+    simp only [pure_eq, bind_ok, hb, ha, hj]
+    cases b <;> cases e <;> exact ⟨_, rfl, by simp⟩
+  obtain ⟨seen, hnd, ns, hns, hc⟩ := dhtIterate_ok_inv hit (fun s x => ⟨_, (hspec s x).choose_spec.1⟩) (fun _ => True)
+    (fun seen st => seen.Nodup ∧ ∃ ns : List kademlia.NodeInfoT, ns.map (·.ID) = seen ∧
+      st = ((ns.filter (joinAdds params)).length : Int))
+    (by
+      intro seen s node r hr hRs _ hnot
+      obtain ⟨r', hr', h1⟩ := hspec s node
+      rw [hr] at hr'
+      cases hr'
+      obtain ⟨hnd, ns, hns, c1⟩ := hRs
+      refine ⟨⟨List.nodup_cons.2 ⟨hnot, hnd⟩, node :: ns, by simp [hns], ?_⟩, fun _ _ => trivial⟩
+      rw [h1, c1]; simp only [List.filter_cons]; split <;> simp)
+    (fun _ _ => trivial) ⟨List.nodup_nil, [], rfl, rfl⟩
+  simp only [pure_eq] at hrest
+  cases hrest
+  exact ⟨ns, hns ▸ hnd, hc⟩
+
+
 end P2PVerif.Src
